@@ -20,6 +20,15 @@ CHECKS = {
  "C05": dict(level="exploration", technique="property-based testing (rapid): before/after structural fingerprint invariant per Check + order-permutation metamorphic relation",
    text="A reflective fingerprint of the syntax tree (all fields, positions, comments, object links, node identity), a digest of types.Info, the shared context and the registry is compared around every single Check under a random checker order; results must equal registry order on a pristine re-parse.",
    note="Fingerprint determinism is self-tested in every case; types.Info digest is order-independent over node identity.", ref="4/C05"),
+ "C11": dict(level="exploration", technique="property-based testing (rapid): regexp grammar generator + differential oracle (original vs rewritten pattern) on a small-scope exhaustive subject set; AST-level minimisation of failures",
+   text="Grammar-generated patterns biased to every rewrite site of the simplifier; each proposed rewrite must compile, keep capture group count/names and give identical FindStringSubmatchIndex on all strings of length <= 4 over a 6-symbol alphabet drawn from the pattern plus random longer subjects.",
+   note="Go's regexp package is the semantic reference; equivalence is tested, not proven; failures are minimised on the regexp AST and classified (class = signature).", ref="4/C11"),
+ "C13": dict(level="exploration", technique="property-based testing (rapid): metamorphic relation under generated padding/permutation/append transformations + the examples' own line-bound expectations",
+   text="Files of every maintainer example package and kernel files are cut into declaration chunks; function chunks are permuted, padding inserted, declarations appended; the checker's own expectations must still hold line by line and for all 107 checkers the per-declaration diagnostics (relative position, text) must be unchanged.",
+   note="Transformed packages are re-type-checked; expectation binding replicates linttest/end2end.go including its two parameter overrides and directive stripping.", ref="4/C13"),
+ "C20": dict(level="exploration", technique="property-based testing (rapid): namesake-injecting typed mutators (generated same-API user packages, generic builtin shadows, local shadows) + go/types resolution oracle over a subject table",
+   text="Programs in which builtins and std packages are re-declared with compatible signatures at package, import and local scope; every diagnostic of an API-specific checker is judged by resolving the flagged reference with go/types.",
+   note="Subject table: hand-written checkers by hand, rule groups derived from the packages/builtins spelled in rules.go patterns; only reports are judged (a missed diagnostic is never a violation); types aliased to the real ones count as real.", ref="4/C20"),
 }
 
 NOT_YET = {}
